@@ -10,7 +10,7 @@ import copy
 import random
 
 from collections import deque, namedtuple
-from urllib.parse import urlsplit, quote, quote_plus, unquote, unquote_plus
+from urllib.parse import urlsplit, urljoin, quote, quote_plus, unquote, unquote_plus
 from contextlib import contextmanager
 
 from ... import help
@@ -1008,6 +1008,12 @@ class Client():
             hostname = splits.hostname
             port = splits.port
             scheme = splits.scheme
+            path = splits.path
+            if hostname is None:  # relative reference is resolved against current request
+                hostname = self.requester.hostname
+                port = self.requester.port
+                scheme = scheme or self.requester.scheme
+                path = urljoin(self.requester.path, path)
             scheme = 'https' if scheme.lower() == 'https' else 'http'
             if scheme == 'https':
                 secured = True  # use tls socket connection
@@ -1016,7 +1022,6 @@ class Client():
                 secured = False # non tls socket connection
                 defaultPort = 80
             hostname, port = httping.normalizeHostPort(hostname, port=port, defaultPort=defaultPort)
-            path = splits.path
             query = splits.query
             fragment = splits.fragment
 
